@@ -123,6 +123,16 @@ func runChild(cfg hx.Config) error {
 		}
 		controlled(r, rnd, sc, lim, i%4 == 3)
 	}
+	nenrich := cfg.N(800, 15000)
+	for i := 0; i < nenrich && !r.Stop() && !tooManyHangs(); i++ {
+		sc := enrichScenario(rnd, r.Count)
+		lim := 1 + rnd.Intn(4)
+		if rnd.Chance(1, 4) {
+			lim = 5 + rnd.Intn(12)
+		}
+		controlledEnrich(r, rnd, sc, lim, i%4 == 3)
+	}
+	r.Notes["controlled_schedules_enrichment"] = nenrich
 	if n := runtime.NumGoroutine(); n > startGoroutines+2 {
 		r.Fail("", fmt.Sprintf("goroutines-left-at-end-of-run before=%d after=%d", startGoroutines, n))
 	}
